@@ -81,8 +81,38 @@ abbrev HId := Nat
     (id, key, value) in insertion order -/
 abbrev HList := List (HId × Bytes × Bytes)
 
-structure ReqSt where
+/-- fields that request_reset() and request_reset_ex() both leave alone: the condition cache and
+    its validity bits (reset in response.c / on accept), server_name_buf ("reset when used"),
+    physical.doc_root / basedir (cleared only while physical.path is allocated; rewritten by
+    http_response_prepare()), state (callers), the connection's read queue, the saved method of
+    the error handler (valid only while error_handler_saved_status is set), and the allocation
+    state of physical.path -/
+structure ReqStale where
+  conValid : Nat := 0                   -- r->conditional_is_valid
+  condCache : List CondEnt := []
+  serverNameBuf : Buf := none
+  physDocRoot : Buf := none
+  physBasedir : Buf := none
   state : Nat := 0                      -- CON_STATE_CONNECT
+  readQueue : Cq := {}
+  errorHandlerSavedMethod : Int := 0    -- (not valid unless errorHandlerSavedStatus is set)
+  physPathPtr : Bool := false           -- r->physical.path.ptr != NULL
+  physPathBig : Bool := false           -- r->physical.path.size > BUFFER_MAX_REUSE_SIZE
+deriving Repr, DecidableEq
+
+/-- fields request_reset() keeps (for mod_status) until request_reset_ex() clears them -/
+structure ReqKept where
+  uriAuthority : Buf := none
+  uriPath : Buf := none
+  uriQuery : Buf := none
+  targetOrig : Buf := none
+  serverName : SrvName := .authority
+  physPath : Buf := none
+  physRelPath : Buf := none
+deriving Repr, DecidableEq
+
+/-- fields request_reset() restores to their initial value -/
+structure ReqLive where
   httpStatus : Int := 0
   x0 : Int := 0                         -- r->x viewed as x.h1: bytes_written_ckpt
   x1 : Int := 0                         --                     bytes_read_ckpt
@@ -91,31 +121,17 @@ structure ReqSt where
   version : Int := -1                   -- HTTP_VERSION_UNSET
   handlerModule : Bool := false         -- r->handler_module != NULL
   pluginCtx : List (Option PCtx) := []  -- r->plugin_ctx[i] (NULL = none)
-  conValid : Nat := 0                   -- r->conditional_is_valid
-  condCache : List CondEnt := []
   conf : Conf := {}
   rqstHeaderLen : Nat := 0
   rqstHtags : List HId := []            -- set bits of r->rqst_htags, ascending
   rqstHeaders : HList := []
   uriScheme : Buf := none
-  uriAuthority : Buf := none
-  uriPath : Buf := none
-  uriQuery : Buf := none
-  physPath : Buf := none
-  physPathPtr : Bool := false           -- r->physical.path.ptr != NULL
-  physPathBig : Bool := false           -- r->physical.path.size > BUFFER_MAX_REUSE_SIZE
-  physBasedir : Buf := none
-  physDocRoot : Buf := none
-  physRelPath : Buf := none
   env : HList := []
   reqbodyLength : Int := 0
   respBodyScratchpad : Int := -1
   httpHost : Option Bytes := none       -- r->http_host (pointer into rqst_headers) or NULL
-  serverName : SrvName := .authority
   target : Buf := none
-  targetOrig : Buf := none
   pathinfo : Buf := none
-  serverNameBuf : Buf := none
   respHeaderLen : Nat := 0
   respHtags : List HId := []
   respHeaders : HList := []
@@ -129,11 +145,14 @@ structure ReqSt where
   asyncCallback : Bool := false
   gwDechunk : Bool := false             -- r->gw_dechunk != NULL
   errorHandlerSavedStatus : Int := 0
-  errorHandlerSavedMethod : Int := 0    -- (not valid unless errorHandlerSavedStatus is set)
   writeQueue : Cq := {}
-  readQueue : Cq := {}
   reqbodyQueue : Cq := {}
   h2ConnectExt : Bool := false
+deriving Repr, DecidableEq
+
+/-- request_st: all modelled fields (grouped by what the reset functions do with them; the
+    functions below and in Model/Server.lean take and return the whole record) -/
+structure ReqSt extends ReqLive, ReqKept, ReqStale
 deriving Repr, DecidableEq
 
 /-- static facts of the server a request object is created for -/
